@@ -152,7 +152,7 @@ func wellFormed(bc *ugo.Bytecode) []string {
 			if j.zeroOK && j.target == 0 {
 				continue
 			}
-			if !(starts[j.target] || j.target == len(ins)) {
+			if !starts[j.target] {
 				add("%s: jump at %d targets %d which is not an instruction start (len %d)", name, j.at, j.target, len(ins))
 			}
 		}
@@ -508,6 +508,25 @@ func c05boundary() []c05case {
 				cs = append(cs, c05case{name: "fold " + bare, src: bare})
 			}
 		}
+	}
+	// shapes of the LAST statement of a function / script / module: which branches fall through to the end, which return,
+	// and which contain jumps of their own decides where the closing instructions and the jump targets to "the end" go
+	bodies := []string{"x = 10", "return x", "if x > 5 {\n  x = 5\n}\nreturn x", "return x > 5 && x < 9", "if x > 5 {\n  x = 5\n}", "", "for i := 0; i < 2; i++ {\n  x++\n}\nreturn x ? 1 : 2", "try {\n  x++\n} finally {\n}"}
+	var tails []string
+	for _, a := range bodies {
+		tails = append(tails, "if x == 0 {\n"+a+"\n}")
+		for _, b := range bodies {
+			tails = append(tails, "if x == 0 {\n"+a+"\n} else {\n"+b+"\n}")
+			tails = append(tails, "try {\n"+a+"\n} catch e {\n"+b+"\n}")
+			for _, cc := range bodies[:5] {
+				tails = append(tails, "if x == 0 {\n"+a+"\n} else if x == 1 {\n"+b+"\n} else {\n"+cc+"\n}")
+			}
+		}
+		tails = append(tails, "for i := 0; i < 3; i++ {\n"+a+"\n}", "for v in [1, 2] {\n"+a+"\n}")
+	}
+	for ti, tl := range tails {
+		add(fmt.Sprintf("tail-main-%d", ti), "param x\n"+tl)
+		add(fmt.Sprintf("tail-func-%d", ti), "f := func(x) {\n"+tl+"\n}\nreturn f(0)")
 	}
 	for n := 1; n <= 12; n++ {
 		add(fmt.Sprintf("parse-errors-%d", n), c05repeat(n, func(i int) string { return "x := := 1" }, "\n"))
